@@ -159,7 +159,8 @@ other("C05", "glue contracts on the nine <step>_check_conf callbacks (the step's
       "and no band is given, or a given band is not one of the image's; key order: check_pipeline_section takes the order of the "
       "returned pipeline from the user's configuration (trace contract); the public check_conf checks the input section first, reads "
       "each image's metadata from its own entries, checks the pipeline against (left, right) and returns the two checked sections "
-      "(trace contract).  That check_conf applies the schema (json_checker "
+      "(trace contract); check_input_section merges the user's input over the documented input defaults (nodata -9999, no mask / "
+      "classification / segmentation, no right disparity) and returns the merged configuration (trace contract).  That check_conf applies the schema (json_checker "
       "assumed: And(T, f) accepts x iff isinstance(x, T) and bool(f(x))), method names, idempotence, user dictionary untouched:",
       trusted=["json_checker semantics assumed: And(T, f) accepts x iff isinstance(x, T) and bool(f(x))",
                "strings are uninterpreted tokens with equality only; '' is the only falsy string"])
@@ -259,8 +260,11 @@ other("C17", "dataset side: check_dataset is proved, once per STRUCTURE of the d
       "from check_dataset's contract: refused iff one dataset is refused, or the left has no disparity variable, or the two "
       "images differ in size.  Input side: check_disparities_from_input (list: exactly two values with min <= max; grid file: 2 "
       "bands, image size, min band <= max band everywhere -- which exception, and iff) and check_image_dimension, raster files "
-      "being opaque (count / width / height / bands are assumed pure functions of the path).  check_images, check_input_section, "
-      "the schema selection, file readability:",
+      "being opaque (count / width / height / bands are assumed pure functions of the path).  check_input_section (trace contract): "
+      "the user's input section laid over the documented defaults, the schema chosen by the form of the two disparity entries "
+      "(left a list: integer schema; else right a path: grids/grids; else grids/none) and validated on the merged configuration "
+      "BEFORE the custom checks, each side's disparity checked against its own image, the merged configuration returned.  The "
+      "content of the three schemas (json_checker), file readability:",
       trusted=["xarray modelled structurally: a dataset is a finite map of typed arrays with declared dimensions; membership, "
                "iteration over variable names, .coords of a DataArray, .sel(label) (the label's existence is an obligation, its "
                "uniqueness a stated precondition), set.issubset(labels) are modelled; arrays are homogeneous (a band_im coordinate "
